@@ -6,13 +6,15 @@
 (*   list:  OPEN sync:, LIST request, records DENT* then DONE;              then CLSE handshake, return         *)
 (*   pull:  [stat on a stream of its own when a callback was given,] OPEN sync:, RECV request, records DATA*    *)
 (*          then DONE; each DATA is written to the sink; the CLSE handshake is in a `finally`                   *)
+(*   push:  (one file) OPEN sync:, SEND + DATA* + DONE in the send buffer, one status record expected: OKAY;     *)
+(*          FAIL raises PushFailedError; the stream is closed after a success only (as built)                    *)
 (* A FAIL record raises AdbCommandFailureException, any other record that is not expected at that point raises  *)
 (* InvalidResponseError (C10).  As built, stat and list leave their stream open when they raise; pull closes    *)
 (* it whatever happens.  The machine is deterministic: TLC enumerates every (operation, script, sink failure)   *)
 (* and prints the expected observables of each (Row), which are replayed on the real code.                      *)
 EXTENDS Naturals, Sequences, TLC, Json
 CONSTANTS MaxRec
-Ops == {"stat", "list", "pull", "pullcb"}
+Ops == {"stat", "list", "pull", "pullcb", "push"}
 Ids == {"DATA", "DENT", "DONE", "STAT", "FAIL", "OKAY", "CLSE"}
 \* OKAY: a FileSync id that is never valid in a reply to these requests; "CLSE" is not a record: the device closes the stream at that
 \* point (the service died) - the host gets nothing more, its wait times out, and it still sends exactly one CLSE where it closes at all
@@ -21,18 +23,20 @@ SeqsUpTo(n) == IF n = 0 THEN {<<>>} ELSE LET S == SeqsUpTo(n - 1) IN S \cup {App
 VARIABLES op, script, failAt, pc, pos, items, nclse, outcome
 vars == <<op, script, failAt, pc, pos, items, nclse, outcome>>
 IsPull == op \in {"pull", "pullcb"}
-Init == /\ op \in Ops /\ script \in SeqsUpTo(MaxRec)
+Init == /\ op \in Ops /\ script \in SeqsUpTo(IF op = "push" /\ MaxRec > 2 THEN 2 ELSE MaxRec)      \* (a push reads one record: two are plenty)
         /\ failAt \in (IF op \in {"pull", "pullcb"} THEN 0..MaxRec ELSE {0})       \* the sink's failAt-th write raises (0: never)
         /\ pc = "read" /\ pos = 1 /\ items = <<>> /\ nclse = 0 /\ outcome = "none"
 \* how an operation ends
 Finish(out, closes) == /\ outcome' = out /\ nclse' = nclse + (IF closes THEN 1 ELSE 0) /\ pc' = "done" /\ UNCHANGED <<op, script, failAt, pos, items>>
 Raise(out) == Finish(out, IsPull)                       \* pull closes its stream in a finally; stat and list do not (as built)
-Expected == IF op = "stat" THEN {"STAT"} ELSE IF op = "list" THEN {"DENT", "DONE"} ELSE {"DATA", "DONE"}
+Expected == IF op = "stat" THEN {"STAT"} ELSE IF op = "list" THEN {"DENT", "DONE"} ELSE IF op = "push" THEN {"OKAY"} ELSE {"DATA", "DONE"}
+Terminal == IF op = "push" THEN "OKAY" ELSE "DONE"            \* the record that ends the operation successfully
+FailClass == IF op = "push" THEN "PushFailedError" ELSE "AdbCommandFailureException"
 Read == /\ pc = "read"
         /\ IF pos > Len(script) \/ script[pos] = "CLSE" THEN Raise("timeout")   \* nothing more arrives (silence, or the device closed the stream): the read times out
            ELSE LET r == script[pos] IN
-                IF r \notin Expected THEN Raise(IF r = "FAIL" THEN "AdbCommandFailureException" ELSE "InvalidResponseError")
-                ELSE IF r = "DONE" THEN Finish("ret", TRUE)
+                IF r \notin Expected THEN Raise(IF r = "FAIL" THEN FailClass ELSE "InvalidResponseError")
+                ELSE IF r = Terminal THEN Finish("ret", TRUE)
                 ELSE IF op = "stat" THEN /\ items' = <<pos>> /\ outcome' = "ret" /\ nclse' = nclse + 1 /\ pc' = "done" /\ UNCHANGED <<op, script, failAt, pos>>
                 ELSE IF IsPull /\ failAt = Len(items) + 1 THEN Raise("OSError")      \* the local write fails: nothing of this record is kept
                 ELSE /\ items' = Append(items, pos) /\ pos' = pos + 1 /\ UNCHANGED <<op, script, failAt, pc, nclse, outcome>>
@@ -40,14 +44,15 @@ Done == pc = "done" /\ UNCHANGED vars
 Next == Read \/ Done
 Spec == Init /\ [][Next]_vars
 (* ---- what the properties demand of the design (checked in every final state) ---- *)
-FirstBad == IF \E i \in 1..Len(script) : script[i] \notin (Expected \ {"DONE"}) THEN CHOOSE i \in 1..Len(script) : script[i] \notin (Expected \ {"DONE"}) /\ \A j \in 1..(i - 1) : script[j] \in (Expected \ {"DONE"}) ELSE 0
+Going == Expected \ {Terminal}              \* records after which the operation goes on reading
+FirstBad == IF \E i \in 1..Len(script) : script[i] \notin Going THEN CHOOSE i \in 1..Len(script) : script[i] \notin Going /\ \A j \in 1..(i - 1) : script[j] \in Going ELSE 0
 \* C10: a FAIL that the operation gets to see surfaces as the documented exception, never as a success or a timeout
 FailSurfaces == (pc = "done" /\ FirstBad # 0 /\ script[FirstBad] = "FAIL" /\ (~IsPull \/ failAt = 0 \/ failAt > FirstBad - 1) /\ op # "stat")
-                  => outcome = "AdbCommandFailureException"
-InvalidStatus == (pc = "done" /\ FirstBad # 0 /\ script[FirstBad] \notin {"FAIL", "DONE", "CLSE"} /\ (~IsPull \/ failAt = 0 \/ failAt > FirstBad - 1) /\ op # "stat")
+                  => outcome = FailClass
+InvalidStatus == (pc = "done" /\ FirstBad # 0 /\ script[FirstBad] \notin {"FAIL", Terminal, "CLSE"} /\ (~IsPull \/ failAt = 0 \/ failAt > FirstBad - 1) /\ op # "stat")
                   => outcome = "InvalidResponseError"
 \* C08 / C09: a normal return hands over exactly the records before the DONE, in order
-ExactOnReturn == (pc = "done" /\ outcome = "ret" /\ op # "stat") => (FirstBad # 0 /\ script[FirstBad] = "DONE" /\ items = [i \in 1..(FirstBad - 1) |-> i])
+ExactOnReturn == (pc = "done" /\ outcome = "ret" /\ op # "stat") => (FirstBad # 0 /\ script[FirstBad] = Terminal /\ items = [i \in 1..(FirstBad - 1) |-> i])
 StatRule == (pc = "done" /\ op = "stat") => outcome = (IF script = <<>> \/ script[1] = "CLSE" THEN "timeout" ELSE IF script[1] = "STAT" THEN "ret"
                                                            ELSE IF script[1] = "FAIL" THEN "AdbCommandFailureException" ELSE "InvalidResponseError")
 \* C04: a normal return closes the stream exactly once; pull closes it however it ends
